@@ -1,5 +1,6 @@
 import Nstd.Common.Basic
 import Nstd.Json.Model
+import Nstd.Json.ModelInto
 /-
   Line protocol of the Json area (same as harness/json.cpp):
     parse <hex>   ->  ok <dump> | err <line> <col>
@@ -9,6 +10,7 @@ import Nstd.Json.Model
     tostr D<hex>  ->  dbl                   (a double is opaque in the model: it carries its text; "%f" of a finite value
                                             is digits '.' six digits, the only thing the harness observes)
     rt <dump>     ->  ok <dump of parse (toString v)> <v' == v> | err <line> <col>
+    parseinto <dump> <hex> -> ok <dump> | err <line> <col>   (parse into a Variant that already holds <dump>)
   dump: n | t | f | d | i<dec> | l<dec> | s<hex> | [V,...] | {<hex>:V,...}
 -/
 open Nstd.Common
@@ -123,6 +125,15 @@ def stepLine (_ : Unit) (ws : List String) : Unit × String :=
     match fromHex h with
     | some bs => ((), showParse (cbuf bs) none)
     | none => ((), "bad-op")
+  | ["parseinto", d, h] =>
+    match readDump d, fromHex h with
+    | some init, some bs =>
+      ((), match parseInto init (cbuf bs) with
+           | .ok v => "ok " ++ dumpVal v
+           | .err l c => s!"err {l} {c}"
+           | .oob => "OOB"
+           | .nofuel => "NOFUEL")
+    | _, _ => ((), "bad-op")
   | ["strip", h] =>
     match fromHex h with
     | some bs =>
